@@ -1341,3 +1341,42 @@ def rule_concile_compares_denotation(check, rule):
         else:
             check.holds(rule, st, '%s: agreement is decided on the upgraded annotations' % norm(x), key=key)
     check.floor(rule, 'annotation comparisons in _concile_meta', n, 1)
+
+
+def rule_annotations_paired_with_owner(check, rule):
+    """C11.R7 (D56): "the object that annotation denotes in the globals of the function that defined it".  Plain retrieval reads the
+    signature with inspect.signature, which follows `__wrapped__`: the annotations it reports belong to the function at the end of that
+    chain.  Upgrading them against the object retrieval started from evaluates postponed text in the globals of a functools.wraps wrapper
+    (another module's `T`, or NameError) and decides eager/postponed by the wrapper's compiler flag.  In set_default_sources the function
+    handed to the upgrade is obtained by following the same chain (inspect.unwrap), not the subject itself."""
+    repo = check.repo
+    fi = repo.func('%s:set_default_sources' % SIG)
+    check.analysed(fi)
+    pos = fi.params()[0]
+    n = 0
+    for c in ast.walk(fi.node):
+        if not (isinstance(c, ast.Call) and norm(c.func).endswith('_upgrade') and len(c.args) >= 2):
+            continue
+        n += 1
+        a1 = c.args[1]
+        key = 'annotations-owner|%s' % fi.key
+        st = site_of(fi, c)
+        follows = False
+        if isinstance(a1, ast.Call):
+            if norm(a1.func).endswith('unwrap'):
+                follows = True
+            elif isinstance(a1.func, ast.Name):
+                h = fi.module.funcs.get(a1.func.id)
+                if h is not None and any(isinstance(x, ast.Call) and norm(x.func).endswith('unwrap') for x in ast.walk(h.node)):
+                    follows = True
+                    check.analysed(h)
+        if follows:
+            check.holds(rule, st, 'the annotations are upgraded against the function at the end of the __wrapped__ chain', key=key)
+        elif isinstance(a1, ast.Name) and a1.id in pos:
+            check.violation(rule, st, 'the annotations inspect.signature read through __wrapped__ are upgraded against the retrieval subject `%s` itself: '
+                            'for a functools.wraps wrapper of another module they are evaluated in the wrong globals' % a1.id, key=key,
+                            witness="lib.py (postponed): T = ...; def f(x: T); deco.py: T = ...; w = functools.wraps(f)(w) -- "
+                                    "signatures.signature(w).parameters['x'].upgraded_annotation.source_value() is deco.T")
+        else:
+            check.inconclusive(rule, st, 'function handed to the upgrade not understood: %s' % norm(a1)[:60], key=key)
+    check.floor(rule, 'upgrades in set_default_sources', n, 1)
